@@ -18,6 +18,10 @@ package main
 //     same-package filter function, the way edns.stripECS is judged by C19-R3;
 //   * a call handing M to a same-package function that crosses such a store
 //     (or the no-OPT edge) for that parameter on every path;
+//   * the call that produces M, when M is the result of a same-package function
+//     every return of which hands out a value that has crossed one of these
+//     barriers inside that function (the copy-and-strip block split off into a
+//     builder);
 //   * the edge on which M has no OPT at all (M.IsEdns0() == nil);
 //   * the edge on which the entry being refreshed is scoped
 //     ((*CacheEntry).scoped() true) — a scoped entry's refresh would need its
@@ -226,10 +230,35 @@ func c03R11as(c *Ctx, R string) {
 	}
 	// stripsParam: h removes the ECS options of its parameter k on every path to a return
 	var stripsParam func(h *ssa.Function, k int, depth int) bool
+	// returnsStripped: every value h returns at result idx has been stripped (or has
+	// no OPT, or the entry is scoped, or is built in h) on every path to that return
+	var returnsStripped func(h *ssa.Function, idx int, depth int) bool
 	var barriersFor func(isM func(*Expr) bool, depth int) []Barrier
 	barriersFor = func(isM func(*Expr) bool, depth int) []Barrier {
 		return []Barrier{
 			{Name: "opt.Option = <no ECS option>", Instr: func(in ssa.Instruction) bool { return stripStore(in, isM) }},
+			{Name: "M = stripping builder(…)", Instr: func(in ssa.Instruction) bool {
+				// M is the result of a same-package function that hands out only
+				// stripped requests (the copy-and-strip block split off into a builder)
+				if depth >= 3 {
+					return false
+				}
+				var cl *ssa.Call
+				idx := 0
+				switch x := in.(type) {
+				case *ssa.Call:
+					cl = x
+				case *ssa.Extract:
+					cl, _ = x.Tuple.(*ssa.Call)
+					idx = x.Index
+				}
+				v, _ := in.(ssa.Value)
+				if cl == nil || v == nil || !isM(Desc(v)) {
+					return false
+				}
+				h := samePkgFn(&cl.Call, cl.Parent())
+				return h != nil && returnsStripped(h, idx, depth+1)
+			}},
 			{Name: "strip helper(M)", Instr: func(in ssa.Instruction) bool {
 				cl, ok := in.(*ssa.Call)
 				if !ok || depth >= 3 {
@@ -267,6 +296,30 @@ func c03R11as(c *Ctx, R string) {
 					if r.visited[in] {
 						return false
 					}
+				}
+			}
+		}
+		return n > 0
+	}
+
+	returnsStripped = func(h *ssa.Function, idx int, depth int) bool {
+		n := 0
+		for _, b := range h.Blocks {
+			for _, in := range b.Instrs {
+				r, ok := in.(*ssa.Return)
+				if !ok || idx >= len(r.Results) {
+					continue
+				}
+				n++
+				rd := Desc(r.Results[idx])
+				if rs := strip(rd); rs != nil && rs.K == EAlloc {
+					continue // built in h, not copied from a client's
+				}
+				rStr := rd.String()
+				isR := func(e *Expr) bool { return e != nil && e.String() == rStr }
+				bars := append(barriersFor(isR, depth), OnTrue("entry.scoped()", CallTo(scoped)))
+				if reach(entryPoint(h), bars, nil).visited[in] {
+					return false
 				}
 			}
 		}
